@@ -599,7 +599,8 @@ class TLSConnection(TLSRecordLayer):
         # If the server elected to resume the session, it is handled here.
         for result in self._clientResume(session, serverHello,
                         clientHello.random,
-                        nextProto, settings):
+                        nextProto, settings,
+                        clientHello.session_id):
             if result in (0, 1): yield result
             else: break
 
@@ -863,6 +864,10 @@ class TLSConnection(TLSRecordLayer):
             for cached_ticket in session.tls_1_0_tickets:
                 extensions.append(SessionTicketExtension().create(
                     cached_ticket.ticket))
+                # RFC 5077, section 3.4: send a session ID with the ticket
+                # so that the server's echo tells if it was accepted
+                if not session_id and not session.sessionID:
+                    session_id = getRandomBytes(32)
                 break
             else:
                 # or just advertise that we support session resumption
@@ -1866,11 +1871,14 @@ class TLSConnection(TLSRecordLayer):
         return None
 
     def _clientResume(self, session, serverHello, clientRandom,
-                      nextProto, settings):
+                      nextProto, settings, sent_session_id=None):
 
+        # the server resumed the session (from its cache or from the ticket
+        # we sent) if and only if it echoed the session ID from ClientHello
         if session and ((session.sessionID and \
             serverHello.session_id == session.sessionID) or
-            session.tls_1_0_tickets):
+            (session.tls_1_0_tickets and sent_session_id and
+             serverHello.session_id == sent_session_id)):
 
             if serverHello.cipher_suite != session.cipherSuite:
                 for result in self._sendError(\
